@@ -52,6 +52,7 @@ public:
     : Input(input_param), pkt_buf_len_(ETH_LEN),
       sock_offset_(0), sock_tail_(0)
   {
+    fds_[0] = fds_[1] = -1;  // nothing to close until init() has succeeded
     sock_offset_ += input_param.user_layer_bytes;
     sock_tail_   += input_param.tail_layer_bytes;
   }
@@ -127,7 +128,8 @@ inline InputSock::~InputSock()
 {
   stop();
 
-  close(fds_[0]);
+  if (fds_[0] >= 0)
+    close(fds_[0]);
   if (fds_[1] >= 0)
     close(fds_[1]);
 }
